@@ -273,7 +273,12 @@ def check_property(prop: str, tier: str, seed: int) -> int:
                     line = src_txt.count("\n", 0, off) + 1
                     if not any(a <= line <= b for a, b in spans):
                         bad.append((pat, line))
-        if bad:
+        # an allowed unit that could not be extracted on this run has no span: its text cannot be told from text outside
+        # every unit, so the scan is undecided (lost anchor), never an alarm
+        missing_units = [n for n in fs["allowed_units"] if not any(u["file"] == fs["file"] and u["unit"] == n for u in units_ev)]
+        if bad and missing_units and undecided:
+            undecided.append("frame scan %s: allowed unit(s) %s not extracted on this run; %d occurrence(s) cannot be attributed" % (fs["file"], ", ".join(missing_units), len(bad)))
+        elif bad:
             for pat, line in bad:
                 violations.append({"obligation": "%s/frame/%s" % (prop, os.path.basename(fs["file"])), "kind": "frame", "message": fs["message"],
                                    "clause_or_statement": "`%s` at %s:%d is outside %s" % (pat, fs["file"], line, ", ".join(fs["allowed_units"])),
